@@ -44,6 +44,8 @@ THEOREMS = [
     "C10_label_capture_witness",
     "C10_keeps_body_executor",
     "C10_body_executor_witness",
+    "C10_notdata_rerun_example",
+    "C10_refused_request_untouched",
 ]
 RULE = (
     "seeded random graphs (function nodes, macros nested to depth 3, workflows; 1-4 children per level, random data "
@@ -187,8 +189,8 @@ def _gen_level(rng, depth, macro):
             sub = _gen_level(rng, depth + 1, True)
             nd = {"t": "macro", "x": _const(rng), "y": _const(rng), "exe": _gen_exe(rng), "level": sub}
         else:
-            nd = {"t": "fn", "fid": rng.randint(1, 30), "ins": [_const(rng), _const(rng), "d"],
-                  "exe": _gen_exe(rng)}
+            nd = {"t": "fn", "fid": 41 if rng.random() < 0.2 else rng.randint(1, 30),
+                  "ins": [_const(rng), _const(rng), "d"], "exe": _gen_exe(rng)}
         nodes_.append(nd)
         for s in range(nslots(nd)):
             r = rng.random()
@@ -216,7 +218,7 @@ def _gen_level(rng, depth, macro):
 
 
 def _const(rng):
-    return rng.choice(["c1", "c2", "c3", "c4", "d"])
+    return rng.choice(["c1", "c2", "c3", "c4", "d", "c0"])  # `c0` makes F41 report NOT_DATA
 
 
 def _gen_exe(rng, p=0.3):
@@ -268,13 +270,13 @@ def _gen_edits(rng, root, slots, kids, n, out):
                 k = rng.randrange(nslots(root["level"]["nodes"][j]))
                 # only unconnected child inputs are on the workflow's panel
                 if not any(d == j and s == k for d, s, _ in root["level"]["edges"]):
-                    res.append(["setkid", j, k, rng.choice(["c5", "c6", "c7"])])
+                    res.append(["setkid", j, k, rng.choice(["c5", "c6", "c7", "c0", "c1"])])
                     continue
             res.append(["rerun"] if out else ["fetch"])
         else:
             k = rng.randrange(slots)
             if r < 0.45:
-                res.append(["set", k, rng.choice(["c5", "c6", "c7"])])
+                res.append(["set", k, rng.choice(["c5", "c6", "c7", "c0", "c1"])])
             elif r < 0.6:
                 res.append(["connect", k, rng.choice(["c8", "c9", "nd"])])
             elif r < 0.7:
@@ -535,6 +537,15 @@ def corpus():
                                                          ([0, 0], 1, "value"), ([0, 0], 0, "copy"),
                                                          ([0, 0], 2, "fetch"), ([0, 0], 1, "kw"), ([0, 1], 2, "value"))] +
                [["completeat", [0, 0]], ["setat", [], 0, "c8", "value"], ["run"]])
+    # an output that held data, then a by-value re-run in which the feeding child reports NOT_DATA
+    search = {"t": "macro", "x": "c1", "y": "c2", "exe": "iv",
+              "level": {"nodes": [fn(41, ["d", "d", "d"]), fn(3, ["d", "d", "d"])], "edges": [[1, 0, 0]],
+                        "xin": [[0, 0, "x"], [0, 1, "y"], [1, 1, "y"]], "out": 0}}
+    yield dict(base, root=search, ops=[["submit"], ["complete"], ["set", 0, "c0"], ["submit"], ["complete"],
+                                       ["set", 0, "c3"], ["submit"], ["complete"]])
+    yield dict(base, root={"t": "wf", "exe": "n", "level": {"nodes": [fn(20, ["c1", "d", "d"]), search],
+                                                            "edges": [[1, 1, 0]]}},
+               ops=[["run"], ["setkid", 1, 0, "c0"], ["run"]])
     # an earlier successful run, new inputs, the job withdrawn before it starts / lost: fails visibly, never stale
     yield dict(base, root=fn(5, ["c1", "d", "d"], "is"),
                ops=[["submit"], ["complete"], ["set", 0, "c2"], ["submit"], ["cancel"], ["set", 0, "c3"]])
@@ -628,9 +639,12 @@ def _any_input_locked(node) -> bool:
             return True
     except Exception:  # noqa: BLE001
         pass
-    kids = getattr(node, "children", None)
-    if not kids:
+    from pyiron_workflow.nodes.composite import Composite
+
+    # (never probe a function node with getattr: unknown attributes are *injected* as new nodes on its output)
+    if not isinstance(node, Composite):
         return False
+    kids = node.children
     for key in list(kids.keys()):
         if _any_input_locked(kids[key]):
             return True
@@ -647,14 +661,33 @@ def _poke(owner, pokes):
     """attempt to assign every own input of an out node its current value (no change if wrongly accepted)"""
     from pyiron_workflow.workflow import Workflow
 
-    if owner is None or isinstance(owner, Workflow):
+    if owner is None:
         return
-    for ch in owner.inputs:
+    for ch in ([] if isinstance(owner, Workflow) else owner.inputs):
         try:
             ch.value = ch.value
             pokes.append((type(owner).__name__, owner.label, ch.label, "accepted", bool(owner.running)))
         except RuntimeError:
             pokes.append((type(owner).__name__, owner.label, ch.label, "refused", bool(owner.running)))
+    # … and a run request reaches the node that is out and every composite above it that is running (a second
+    # upstream signal, a manual run()): it has to be refused, and the refusal has to leave the sub-graph alone
+    from pyiron_workflow.mixin.run import ReadinessError
+
+    n = owner
+    while n is not None and n.running:
+        if isinstance(n, Workflow) and n.executor is None:
+            break  # the thread we are on is inside this very run() call
+        try:
+            n.run()
+            pokes.append((type(n).__name__, n.label, "run()", "accepted", bool(n.running)))
+        except ReadinessError:
+            pokes.append((type(n).__name__, n.label, "run()", "refused", bool(n.running)))
+        except RuntimeError as e:
+            pokes.append((type(n).__name__, n.label, "run()", "refused" if type(e) is RuntimeError else
+                          f"raised:{type(e).__name__}", bool(n.running)))
+        except Exception as e:  # noqa: BLE001
+            pokes.append((type(n).__name__, n.label, "run()", f"raised:{type(e).__name__}", bool(n.running)))
+        n = getattr(n, "_parent", None)
 
 
 def _fid(node):
@@ -1335,7 +1368,7 @@ def _run_for(case):
         wf.z = nodes.F6(a=wf.f.outputs.o, b=wf.a)
         _no_cache(wf)
         if exe:
-            wf.f.executor = CtlExe(sched, case["mode"] == "iv", True, "pickle", [])
+            wf.f.executor = CtlExe(sched, case["mode"] == "iv", True, "pickle", pokes)
         return wf
 
     def view(wf):
@@ -1360,13 +1393,13 @@ def _run_for(case):
                 "failed": [c.label for c in wf if c.failed]}
 
     body = case.get("body")
-    rounds = []
+    pokes: list = []
 
     def body_setting():
         if body == "inst":
-            return CtlExe(sched, False, True, "pickle", [])
+            return CtlExe(sched, False, True, "pickle", pokes)
         if body == "instr":
-            nc.REGISTRY["s"] = CtlExe(sched, False, True, "pickle", [])
+            nc.REGISTRY["s"] = CtlExe(sched, False, True, "pickle", pokes)
             return (nc.make_executor, ("s",), {})
         return None
 
@@ -1406,7 +1439,8 @@ def _run_for(case):
         impl_rounds = session(True)
     twin_rounds = session(False)
     return {"obs": [], "for": {"res": impl_rounds[0]["res"], "impl": impl_rounds[0], "twin": twin_rounds[0],
-                               "rounds": list(zip(impl_rounds, twin_rounds))},
+                               "rounds": list(zip(impl_rounds, twin_rounds)),
+                               "pokes": [p for p in pokes if p[3] != "refused"]},
             "callback_errors": cb.records, "stats": {"for_cases": 1, f"for_body:{body}": 1}}
 
 
@@ -2173,6 +2207,8 @@ def oracle(case, r):
             if d["kind"].startswith("fn") and held is not None and d["f"] == "0":
                 fid = int(d["kind"][2:])
                 want = ".".join([str(fid + 1)] + [x for x in d["i"].split(";")] + ["0"])
+                if fid == 41 and d["i"].split(";")[0] == "1001.0":
+                    want = "-"  # that function has nothing to report for `c0`
                 if d["o"] != want:
                     add(_fail("frozen", f"op #{k} {op}: {mp} shows inputs {d['i']} next to output {d['o']}",
                               op="delivered", top=top_kind, after_merge=False))
@@ -2274,6 +2310,9 @@ def _oracle_for(case, r):
                          f"owns its channels {i['owner']}", kind="for"))
     if i["running"]:
         out.append(_fail("nothing-running", f"{i['running']}", kind="for"))
+    if f.get("pokes"):
+        out.append(_fail("frozen", f"for-node ({case}): a request to a node that is out was not refused: {f['pokes'][:3]}",
+                         kind="for", op="poke"))
     if case.get("body") is not None:
         for k, (im, tw) in enumerate(f["rounds"]):
             if im["res"] != "ok" or im["outs"] != tw["outs"] or im["z"] != tw["z"]:
